@@ -59,6 +59,8 @@ type XW struct {
 	Peers []*ScriptPeer
 	hang  chan struct{} // closed at teardown: releases hanging peers
 	servers []*XServer
+	// Metrics: client and servers are built with their metrics on (configuration knob)
+	Metrics bool
 }
 
 type frame struct {
@@ -91,6 +93,7 @@ type ScriptPeer struct {
 
 func newXW(s *core.Sim, npeers int) (*XW, error) {
 	w := &XW{S: s, hang: make(chan struct{})}
+	w.Metrics = s.Tape.Coin("p2p-metrics", 1, 3)
 	w.Net = mocknet.New()
 	seed := uint64(s.Tape.Draw("key-seed", 1<<30))
 	for i := 0; i <= npeers; i++ {
@@ -210,6 +213,9 @@ func (w *XW) StartClient(trusted []peer.ID, connect []int, opts ...p2p.Option[p2
 			return
 		}
 		all := append([]p2p.Option[p2p.ClientParameters]{p2p.WithNetworkID[p2p.ClientParameters](xNetworkID), p2p.WithChainID("sim-chain")}, opts...)
+		if w.Metrics {
+			all = append(all, p2p.WithMetrics[p2p.ClientParameters]())
+		}
 		w.Ex, err = p2p.NewExchange[*H](w.Hosts[0], trusted, w.Gater, all...)
 		if err != nil {
 			return
